@@ -18,6 +18,9 @@ Import ListNotations.
 Local Open Scope string_scope.
 Local Open Scope Z_scope.
 
+(* split conjunctions only (never an equation), then compute each part *)
+Ltac conj := repeat match goal with |- _ /\ _ => split end.
+
 (* declared_name p T s: s is the trimmed name of a constant of type T *)
 Theorem C12_declared_name_means : forall p T s,
   declared_name p T s <-> exists n v, In (n, v) (declared T p) /\ s = trim_prefix n T.
@@ -146,12 +149,12 @@ Definition codec_flags : flags :=
   {| f_bit := false; f_json := true; f_text := true; f_sql := true; f_gorm := false |}.
 
 Example C12_example_guard : enum_guard ex_pkg "Level" = true /\ enum_guard ex_pkg "Mode" = true.
-Proof. vm_compute. split; reflexivity. Qed.
+Proof. conj; vm_compute; reflexivity. Qed.
 
 Example C12_example_declared :
   declared "Level" ex_pkg = [("LevelLow", -2); ("LevelMid", 10); ("High", 3); ("LevelTop", 30); ("LevelMax", 5)]
   /\ declared "Mode" ex_pkg = [("ModeA", 65000); ("ModeB", 65010)].
-Proof. vm_compute. split; reflexivity. Qed.
+Proof. conj; vm_compute; reflexivity. Qed.
 
 Example C12_example_generated :
   exists g, generate ex_pkg "Level" codec_flags = Some g
@@ -159,7 +162,7 @@ Example C12_example_generated :
     /\ parse_enum (const_env ex_pkg) g "Top" = (30, None)
     /\ parse_enum (const_env ex_pkg) g "LevelTop" = (0, Some ENotFound)
     /\ is_enum (const_env ex_pkg) g (3 + 256) = true.
-Proof. eexists. vm_compute. repeat split. Qed.
+Proof. eexists. conj; vm_compute; reflexivity. Qed.
 
 (* the JSON law is satisfiable: the concrete codec used by the correspondence
    run (quote / unquote of strings without escapes) satisfies it for every string *)
